@@ -84,7 +84,7 @@ def descriptors(k, tier):
         # the date pattern: three columns (year, day, day) so that the two layouts differ in how the day columns are blocked
         return ([(a, m, p, lay) for a in al for m in (1, 2) for p in PATTERNS[:3] for lay in (0, 1)]
                 + [(a, 3, 'dates', lay) for a in ('abc', 'cab', 'ab') for lay in (0, 1)])
-    al = ALIGNED[:7] if tier == 'thorough' else ['a', 'ab', 'ba', 'cb']
+    al = (ALIGNED[:7] if tier == 'thorough' else ['a', 'ab', 'ba', 'cb']) + ['']      # '' = an input with no label at all on the aligned axis
     return [(a, 1, p, 1) for a in al for p in (('int', 'bylabel', 'float') if tier == 'thorough' else ('int', 'bylabel'))]
 
 
@@ -103,6 +103,7 @@ def cases(tier):
         yield ('overlay', (sh, 48))
     for k in (1, 2, 3):
         yield ('series-overlay', k)
+    yield ('typed-index-concat', 0)
 
 
 def universe(tier):
@@ -355,6 +356,56 @@ def run_series_overlay(case, ctx):
     ctx.sample({'family': 'series-overlay', 'k': k}, limit=1)
 
 
+def run_typed_index_concat(case, ctx):
+    '''containers labelled by typed datetime indices of different resolution (year-month, day, second): the concatenated labels are the inputs' labels in
+    input order (as instants), every value under its own label, for every ordered selection of 1..3 inputs'''
+    mk = {
+        'ym1': (sf.IndexYearMonth, ('2020-01', '2020-02')), 'd1': (sf.IndexDate, ('2020-03-15', '2020-04-20')), 'ym2': (sf.IndexYearMonth, ('2020-06',)),
+        'd2': (sf.IndexDate, ('2020-07-04',)), 's1': (sf.IndexSecond, ('2020-08-01T10:11:12',)), 'plain': (sf.Index, ('x', 'y')),
+    }
+    names = list(mk)
+    for k in (1, 2, 3):
+        for seq in itertools.permutations(names, k):
+            ctx.state(('typed', seq))
+            ctx.transition(3)
+            if len({mk[n][0] for n in seq}) > 1:
+                ctx.nontriv(('typed', seq))
+            info = dict(inputs=seq)
+            labels, values, ser = [], [], []
+            for i, n in enumerate(seq):
+                cls, labs = mk[n]
+                ix = cls(labs)
+                vals = [100 * (i + 1) + j for j in range(len(labs))]
+                ser.append(sf.Series(vals, index=ix, name=n))
+                labels += list(ix.values)
+                values += vals
+            def same_label(a, b):
+                import datetime as _dt
+                da, db = isinstance(a, (np.datetime64, _dt.date)), isinstance(b, (np.datetime64, _dt.date))
+                if da != db:
+                    return False
+                if da:
+                    # in an object result a datetime64 label is held as the equal datetime.date / datetime (accepted: same instant)
+                    return bool(np.datetime64(a) == np.datetime64(b))
+                return a == b
+            for route, fn in (('series.from_concat', lambda: sf.Series.from_concat(ser)),
+                              ('frame.from_concat(axis=0)', lambda: sf.Frame.from_concat([s_.to_frame().relabel(columns=('v',)) for s_ in ser], axis=0)),
+                              ('frame.from_concat(axis=1)', lambda: sf.Frame.from_concat([s_.to_frame().relabel(columns=('v',)).transpose() for s_ in ser], axis=1))):
+                try:
+                    r = fn()
+                except Exception as e:
+                    ctx.violation(f'typed-index|{route}|raises|{type(e).__name__}', **info, error=repr(e))
+                    continue
+                got_l = list(r.index.values) if 'axis=1' not in route else list(r.columns.values)
+                got_v = r.values.ravel().tolist()
+                if len(got_l) != len(labels) or not all(same_label(a, b) for a, b in zip(got_l, labels)):
+                    ctx.violation(f'typed-index|{route}|labels-are-not-the-input-labels', **info, got=[str(x) for x in got_l], expected=[str(x) for x in labels])
+                elif got_v != values:
+                    ctx.violation(f'typed-index|{route}|values', **info, got=got_v, expected=values)
+    ctx.outcome('typed-index-concat')
+    ctx.sample({'family': 'typed-index-concat', 'index_kinds': names}, limit=1)
+
+
 def run_overlay(case, ctx):
     '''from_overlay: k=2..3 frames over rows (x, y) and columns sub-permutations; every hole pattern on a 2x2 float/object grid.'''
     _, (sh, nsh) = case
@@ -432,7 +483,7 @@ def run_overlay(case, ctx):
 
 
 def run_case(case, ctx):
-    {'concat': run_concat, 'series': run_series, 'overlay': run_overlay, 'series-overlay': run_series_overlay}[case[0]](case, ctx)
+    {'concat': run_concat, 'series': run_series, 'overlay': run_overlay, 'series-overlay': run_series_overlay, 'typed-index-concat': run_typed_index_concat}[case[0]](case, ctx)
 
 
 _cases = cases
